@@ -910,3 +910,22 @@ where
     T: Eq,
 {
 }
+
+/// Read-only structural accessors for external verification machinery. Compiled only with
+/// `--cfg prefix_trie_verif`; never part of the public API otherwise.
+#[cfg(prefix_trie_verif)]
+impl<P, T> PrefixMap<P, T> {
+    /// Returns `(arena length, free list, cached entry counter, per-slot (left, right, has_value))`.
+    #[allow(clippy::type_complexity)]
+    pub fn verif_arena(&self) -> (usize, Vec<usize>, usize, Vec<(Option<usize>, Option<usize>, bool)>) {
+        let t = self.table.as_ref();
+        (
+            t.len(),
+            self.free.clone(),
+            self.count,
+            t.iter()
+                .map(|n| (n.left, n.right, n.value.is_some()))
+                .collect(),
+        )
+    }
+}
